@@ -3143,6 +3143,14 @@ def aten_div_mode(self: TReal, other: TReal, rounding_mode: Optional[str] = None
     assert rounding_mode in {"trunc", "floor", None}
 
     if self.dtype.is_integer():
+        if rounding_mode is not None and not isinstance(other, float):
+            # Integer division is exact in the integer type; a float32 quotient is not
+            # (values beyond 2**24 are rounded).
+            if rounding_mode == "trunc":
+                # ONNX Div on integers truncates towards zero
+                return op.Div(self, other)
+            return aten_floor_divide(self, other)
+
         quotient = op.Div(op.Cast(self, to=FLOAT.dtype), op.Cast(other, to=FLOAT.dtype))
 
         if rounding_mode == "trunc":
